@@ -935,6 +935,33 @@ def om2qu_single(om: np.ndarray) -> np.ndarray:
     else:
         qu[3] = 0.5 * np.sqrt(d_almost)
 
+    if a_almost < constants.eps9:
+        # Rotation by 180 degrees: the antisymmetric part of the matrix
+        # vanishes and cannot give the signs of (b, c, d). Take their
+        # relative signs from the symmetric part instead, e.g.
+        # om[0, 1] + om[1, 0] = 4bc, with the largest component positive
+        b = abs(qu[1])
+        c = abs(qu[2])
+        d = abs(qu[3])
+        if b >= c and b >= d:
+            if om[0, 1] + om[1, 0] < 0:
+                c = -c
+            if om[0, 2] + om[2, 0] < 0:
+                d = -d
+        elif c >= d:
+            if om[0, 1] + om[1, 0] < 0:
+                b = -b
+            if om[1, 2] + om[2, 1] < 0:
+                d = -d
+        else:
+            if om[0, 2] + om[2, 0] < 0:
+                b = -b
+            if om[1, 2] + om[2, 1] < 0:
+                c = -c
+        qu[1] = b
+        qu[2] = c
+        qu[3] = d
+
     norm = np.sqrt(np.sum(np.square(qu)))
     qu = qu / norm
 
